@@ -339,6 +339,11 @@ pub struct Case {
     /// the log then holds records with and without checksum). Empty: `WalConfig::default()`
     #[serde(default)]
     pub log_cfgs: Vec<LogCfg>,
+    /// shard ids of the participants of `Begin` transactions: 0 = 0, 1, 2; 1 = 1, 65, 129 (equal
+    /// modulo 64); 2 = 0, 250, 70 000; 3 = 7, 4 294 967 303, 2^40 (equal modulo 2^32). An id is
+    /// a name: nothing may depend on its value
+    #[serde(default)]
+    pub shard_pal: u8,
 }
 
 /// The log switches incarnation `inc` opens the log with.
@@ -996,7 +1001,13 @@ impl<'a> Trial<'a> {
         let ctx = self.ctx;
         match step {
             Step::Begin { t, n, kb } => {
-                let parts: Vec<usize> = (0..(*n).clamp(1, 3) as usize).collect();
+                let pal: [usize; 3] = match self.case.shard_pal % 4 {
+                    0 => [0, 1, 2],
+                    1 => [1, 65, 129],
+                    2 => [0, 250, 70_000],
+                    _ => [7, 4_294_967_303, 1 << 40],
+                };
+                let parts: Vec<usize> = pal[..(*n).clamp(1, 3) as usize].to_vec();
                 self.begin(c, *t, parts, *kb, i);
             },
             Step::BeginWide { t, n, base, kb } => {
@@ -1375,7 +1386,7 @@ impl<'a> Trial<'a> {
             self.recs
                 .iter()
                 .map(|(t, r)| {
-                    let voted = r.last_vote.keys().filter_map(|sh| sh.checked_sub(r.parts[0])).collect();
+                    let voted = r.last_vote.keys().filter_map(|sh| r.parts.iter().position(|p| p == sh)).collect();
                     (*t, ParTx { id: r.id, parts: r.parts.clone(), kb: r.kb, voted })
                 })
                 .collect(),
@@ -2364,7 +2375,7 @@ fn gen_classic(rng: &mut Rng) -> Case {
         )
     };
     let handle_numbering = u8::from(rng.chance(1, 2));
-    Case { steps, recover_after_restart, mode, handle_numbering, log_limit: None, configs: Vec::new(), log_cfgs: Vec::new() }
+    Case { steps, recover_after_restart, mode, handle_numbering, log_limit: None, configs: Vec::new(), log_cfgs: Vec::new(), shard_pal: 0 }
 }
 
 /// The log configuration as part of the case: a round-1 program whose log has a hard size
@@ -2607,7 +2618,7 @@ fn gen_par(rng: &mut Rng) -> Case {
         5 => Mode::Sample { seed: 0, points: 0 },
         _ => gen_chain(rng, 4 * steps.len()),
     };
-    Case { steps, recover_after_restart, mode, handle_numbering: u8::from(rng.chance(1, 2)), log_limit: None, configs: Vec::new(), log_cfgs: Vec::new() }
+    Case { steps, recover_after_restart, mode, handle_numbering: u8::from(rng.chance(1, 2)), log_limit: None, configs: Vec::new(), log_cfgs: Vec::new(), shard_pal: 0 }
 }
 
 /// A coordinator configuration: every field of `DistributedTxConfig`, small values included.
@@ -2731,7 +2742,7 @@ fn gen_rounds(rng: &mut Rng) -> Case {
         4..=5 => Mode::Enumerate,
         _ => gen_chain(rng, steps.len()),
     };
-    Case { steps, recover_after_restart, mode, handle_numbering: u8::from(rng.chance(1, 2)), log_limit: None, configs, log_cfgs: Vec::new() }
+    Case { steps, recover_after_restart, mode, handle_numbering: u8::from(rng.chance(1, 2)), log_limit: None, configs, log_cfgs: Vec::new(), shard_pal: 0 }
 }
 
 /// Recovery calls at arbitrary points of a live incarnation (the quantifier's "every following
@@ -2849,7 +2860,7 @@ fn gen_live(rng: &mut Rng) -> Case {
         4..=5 => Mode::Sample { seed: rng.next_u64(), points: rng.range(40, 120) as u32 },
         _ => gen_chain(rng, steps.len()),
     };
-    Case { steps, recover_after_restart, mode, handle_numbering: u8::from(rng.chance(1, 2)), log_limit: None, configs, log_cfgs: Vec::new() }
+    Case { steps, recover_after_restart, mode, handle_numbering: u8::from(rng.chance(1, 2)), log_limit: None, configs, log_cfgs: Vec::new(), shard_pal: 0 }
 }
 
 /// `Mode::Limits`: see there.
@@ -3221,6 +3232,8 @@ impl Scenario for C13 {
         if rng.chance(1, 3) {
             case.log_cfgs = gen_log_cfgs(rng);
         }
+        // the participants' shard ids: the small consecutive ones in half of the cases
+        case.shard_pal = *rng.pick(&[0u8, 0, 0, 1, 2, 3]);
         case
     }
 
